@@ -144,6 +144,17 @@ def op_words_all_versions(ctx, maxlen):
                     break
 
 
+def deep_brackets():
+    """brackets nested 30 to 199 deep (the compiler's own limit is 200; the pure-Python tokenizer of the older references has none) whose contents run
+    over several lines: the line breaks inside are no logical newlines however deep the nesting is and however many brackets were closed before"""
+    out = []
+    for d in (30, 64, 99, 100, 101, 102, 128, 150, 199):
+        for op, cl in (('(', ')'), ('[', ']'), ('(', ')') if d % 2 else ('{', '}')):
+            out.append(('deep:%d%s' % (d, op), 'a = ' + op * d + '1' + cl * (d - 1) + '\n + 2' + cl + '\nb = 3\n'))
+            out.append(('deep2:%d%s' % (d, op), 'a = ' + op * d + '1\n' + cl * (d - 2) + '\n  , 2' + cl + '\n' + cl + '\nif a:\n    b = 3\n'))
+    return out
+
+
 def recheck(replay, text):
     """re-evaluate the comparison on a modified text (used by known-finding attribution)"""
     v = replay['version']
@@ -178,6 +189,7 @@ def run(ctx, b, drv):
             srcs.append(('gen:%s:%d' % (kind, i), code))
         for i in range(ngen):
             srcs.append(('derived:%d' % i, gens.derived(gens.rng(ctx.seed, 'derived-%s-%s' % ('C10', v), i), v)))
+        srcs += deep_brackets()
         refs = refpy.run_ref('ref_tok.py', v, [s for _, s in srcs])
         old = None
         acc = 0
